@@ -17,7 +17,8 @@ CONSTANTS EP,        \* endpoint names
           AllowedChoices,  \* {{}} when generating (the table is data), SUBSET Types when model checking
           Focus,           \* GEN: only scenarios with a refusing endpoint among all-healthy ones
           Strats,          \* GEN: routing-strategy variants of the server ("plain", "disc_all")
-          DropFocus        \* GEN: only scenarios in which one endpoint re-lists without the shared model
+          DropFocus,       \* GEN: only scenarios in which one endpoint re-lists without the shared model
+          FlipFocus        \* GEN: only scenarios in which one endpoint turns unhealthy WHILE the request is being routed
 
 VARIABLES prefix, allowed, typ, H,
           phase,     \* "cfg" | "sent" | "served" | "answered"
@@ -42,10 +43,16 @@ Init == /\ prefix \in Prefixes /\ allowed \in AllowedChoices
               \* strat "disc_all": the server runs the discovery routing strategy with fallback "all" and refresh on
               \* miss, and the request names a model nobody lists -- the lenient fallback must stay inside the provider
               \* drop: endpoints that re-list without the model all endpoints share (DropFocus: exactly one, all healthy)
-              /\ \E st \in Strats : \E dr \in SUBSET (DOMAIN typ) :
+              \* flip: endpoints whose health flips to "unhealthy" between two reads of the healthy set inside ONE
+              \* request (the harness does it while olla re-lists the backends for the refresh on miss): candidates are
+              \* those healthy at arrival; whatever olla re-reads later, it must not widen the request beyond its provider
+              /\ \E st \in Strats : \E dr \in SUBSET (DOMAIN typ) : \E fl \in SUBSET (DOMAIN typ) :
                     /\ (DropFocus => Cardinality(dr) = 1 /\ H = DOMAIN typ /\ R = {})
                     /\ (~DropFocus => dr = {})
-                    /\ scn = [prefix |-> prefix, types |-> typ, H |-> H, refuse |-> R, strat |-> st, drop |-> dr]
+                    /\ (FlipFocus => Cardinality(fl) = 1 /\ H = DOMAIN typ /\ R = {} /\ st = "disc_all"
+                                      /\ Cardinality(DOMAIN typ) = Cardinality(EP))
+                    /\ (~FlipFocus => fl = {})
+                    /\ scn = [prefix |-> prefix, types |-> typ, H |-> H, refuse |-> R, strat |-> st, drop |-> dr, flip |-> fl]
 
 Send == phase = "cfg" /\ phase' = "sent" /\ UNCHANGED <<prefix, allowed, typ, H, served, scn>>
 \* only a healthy endpoint of the provider's kind may be contacted
